@@ -117,6 +117,26 @@ MAY_PANIC = re.compile(
     r"|^core::iter::traits::iterator::Iterator::step_by$")
 
 
+def _operand_ty(fn, op):
+    if not isinstance(op, dict):
+        return None
+    t = None
+    if "const" in op:
+        t = op["const"].get("ty")
+    else:
+        pl = op.get("copy") or op.get("move")
+        if pl is not None:
+            t = fn["locals"][pl["local"]]["ty"]
+            for pj in pl["proj"]:
+                if "field" in pj and pj.get("ty"):
+                    t = pj["ty"]
+                elif "deref" in pj and isinstance(t, dict) and t.get("k") == "ref":
+                    t = t.get("to")
+    if isinstance(t, dict) and t.get("k") == "int":
+        return "%s%s" % ("i" if t.get("signed") else "u", "size" if t.get("ptr") else t.get("bits"))
+    return None
+
+
 def panic_sites(prog, fn, include_calls=True):
     """(kind, detail, block, line, key-detail) panic sites of one body"""
     out = []
@@ -134,7 +154,13 @@ def panic_sites(prog, fn, include_calls=True):
                 continue
             sp = a.get("span") or {}
             op = (a.get("detail") or {}).get("op", "")
-            out.append(("assert", "%s%s" % (a["kind"], (":" + op) if op else ""), i, sp))
+            # the operand type is part of the site's identity (an allow-listed u32 counter overflow is not a u8 one)
+            tysfx = ""
+            if a["kind"] == "Overflow":
+                t = _operand_ty(fn, (a.get("detail") or {}).get("a"))
+                if t:
+                    tysfx = ":" + t
+            out.append(("assert", "%s%s%s" % (a["kind"], (":" + op) if op else "", tysfx), i, sp))
         elif "call" in t and include_calls and "path" in t["call"]["callee"]:
             cp = t["call"]["callee"].get("resolved") or t["call"]["callee"]["path"]
             sp = t["call"].get("span") or {}
